@@ -2,9 +2,9 @@
 from ..build import AnalysisBroken
 from ..interp import Obj, View
 from ..chibi import CG
-from ..lib_sem import run_paths, child_value, canon, fbin, INTSZ, UNSIGNED, FP, CAST_CATS, zero_test_terms
+from ..lib_sem import run_paths, child_value, canon, fbin, INTSZ, UNSIGNED, FP, CAST_CATS, zero_test_terms, prune_infeasible
 from ..x86 import Unknown, lo, ext, C
-from .c01 import wrap, mk_binary, report, r015
+from .c01 import wrap, mk_binary, report, r015, mk_cast, check_cast
 
 U = 'codegen.c'
 FOPS = {'ND_ADD': 'add', 'ND_SUB': 'sub', 'ND_MUL': 'mul', 'ND_DIV': 'div'}
@@ -39,6 +39,24 @@ def bool_result(E):
         tag = ('is-' + str(inner[0])) if isinstance(inner, tuple) else None
         return a == want, 'result is %r, C11/IEEE prescribes %r' % (a, want), tag
     return check
+
+
+def r_typeid_rows(cg, rep, rule):
+    """the scalar type kinds that have no column of their own in the cast table (an enumerated type, _Bool as a source) are classified by
+    getTypeId onto a column that converts their values correctly: cast() is run through the machine with such a type on the integer side
+    and a floating type on the other, exactly like the R02.1 cells. An enumerated type is represented as int (C11 6.7.2.2p4, type.c
+    enum_type: 4 bytes, signed): its register holds a 32-bit two's complement value with the upper half undefined. A _Bool is held
+    zero-extended; the sign-test branch of a 64-bit unsigned sequence is infeasible for it and is pruned (lib_sem.feasible_state)."""
+    where = '%s:%d' % (U, cg.cu.fn('getTypeId').line if cg.cu.fn('getTypeId') else (cg.cu.fn('cast').line if cg.cu.fn('cast') else 0))
+    for other, prec in FP.items():
+        for frm, to in (('enum', other), (other, 'enum'), ('bool', other)):
+            key = '%s:cast:%s->%s' % (U, frm, to)
+            pack = run_paths(cg, 'gen_expr', mk_cast(cg, frm, to))
+            if frm == 'bool':
+                pack = prune_infeasible(pack)
+                if any((not isinstance(f, Exception)) and not f for _, _, f, _, _ in pack):
+                    rep.undecided(rule, key, 'no feasible final state of the emitted conversion sequence', where=where); continue
+            report(rep, rule, key, pack, check_cast(frm, to), 'conversion %s -> %s' % (frm, to), where)
 
 
 def r022(cg, rep):
@@ -204,6 +222,13 @@ def run(P, rep, tier):
                         'R02.6/R02.15: strtof / strtod / strtold of the host round correctly to 24 / 53 / 64 digits (glibc does); a C conversion or store to a floating type of p digits rounds to p digits; the host long double is the x87 format']
     rep.rule('R02.1', 'every conversion cell with a floating source or target: signed/unsigned and width handling of the integer side, truncation toward zero with the x87 control word restored, precision of the floating side', floor=60)
     r015(cg, rep, 'fp')
+    rep.rule('R02.17', 'getTypeId is right for the type kinds without a cast-table column of their own when the other side is floating: an enumerated type converts to and '
+             'from float / double / long double as the signed 32-bit int it is represented as (a negative enumeration value stays negative), a _Bool source as 0 / 1', floor=9)
+    r_typeid_rows(cg, rep, 'R02.17')
+    from ..lib_c02 import r_explicit_cast
+    rep.rule('R02.18', 'an explicit cast `(T)e` always builds the conversion node to T around e (parse.c cast): no path decides from the operand\'s size or kind that the conversion can be left out, '
+             'so that a cast between an integer and a floating type of the same size converts the value instead of reinterpreting the bits', floor=1)
+    r_explicit_cast(P, rep, 'R02.18')
     from ..lib_types import r_common_type, r_add_type
     rep.rule('R02.7', 'floating rank in the usual arithmetic conversions: long double > double > float > any integer type, on either side; operators on mixed operands are typed accordingly', floor=100)
     r_common_type(P, rep, 'R02.7', 'fp')
@@ -213,14 +238,43 @@ def run(P, rep, tier):
     from .c16 import r_atomic_operand_type
     r_atomic_operand_type(P, rep, 'R02.7')
     from ..lib_exprparse import r_conversion_sites
-    rep.rule('R02.9', 'implicit conversions at use sites that involve floating types: arguments converted to the parameter type, float arguments passed through ... promoted to double whatever type object carries the float type (shared with R01.4)', floor=3)
+    rep.rule('R02.9', 'implicit conversions at use sites that involve floating types: arguments converted to the parameter type, float arguments passed through ... promoted to double whatever type object carries the float type, the operand of return converted to the return type whatever the sizes of the two types (shared with R01.4)', floor=4)
     r_conversion_sites(P, rep, 'R02.9')
     from ..report import Report, reissue
+    # the operand of `return` is converted to the function's return type, whatever the two types are (`return 2;` in a function returning
+    # float, `return 2.9;` in one returning int): C01's rule on stmt(), which does not look at the kind or size of the types, shared
+    from .c01 import r_return_conversion
+    sub = Report('C01')
+    sub.rule('R01.4', '', 1)
+    r_return_conversion(P, sub)
+    if reissue(rep, 'R02.9', sub, 'a return value of another arithmetic type than the return type (an integer returned from a floating function or vice versa) would be passed back unconverted: ',
+               keep=lambda o: ':stmt:return' in o['key']) == 0:
+        rep.undecided('R02.9', 'parse.c:stmt:return', 'C01 R01.4 produced no obligation about the conversion of the return value')
     from . import c07, c20
     rep.rule('R02.10', 'long double values live on the x87 register stack: every gen_expr / gen_stmt / gen_addr arm leaves it balanced (+1 only for a long double result), so that no computation runs into a full register stack and turns into NaN (same obligations as C20 R20.1, R20.2, R20.7)', floor=80)
     sub = Report('C20')
     c20.run(P, sub, tier)
     reissue(rep, 'R02.10', sub, 'later long double arithmetic would yield NaN: ', keep=lambda o: o['key'].split(':', 1)[0] in ('R20.1', 'R20.2', 'R20.7'))
+    # the value operand of the exchange / compare-and-swap builtins is converted to the type of the atomic object whenever either is floating
+    # (C20 R20.8 = C16 R16.7, lib_types.r_atomic_builtin_operands: every object type x every operand type, decided on add_type)
+    rep.rule('R02.16', 'atomic exchange / compare-and-swap with a floating object or a floating value operand: add_type converts the value operand to the type of the atomic object '
+             '(an int stored into an _Atomic float is converted to float, a float stored into an _Atomic int is truncated) whatever the sizes of the two types, '
+             'as simple assignment does (C11 7.17.7.3, 6.5.16.1p2); same obligations as C20 R20.8 / C16 R16.7, floating rows and columns', floor=90)
+    _FPW = ('float', 'double', 'ldouble')
+
+    def _fp_row(o):
+        if o['key'].split(':', 1)[0] != 'R20.8' or '(' not in o['key']:
+            return False
+        inside = o['key'].rsplit('(', 1)[1].rstrip(')')
+        parts = [p.strip().split(' ')[0] for p in inside.split(',')]
+        return any(p in _FPW for p in parts)
+    from ..lib_types import r_atomic_builtin_operands
+    sub16 = Report('C20')
+    sub16.rule('R20.8', '', 1)
+    r_atomic_builtin_operands(P, sub16, 'R20.8')
+    n16 = reissue(rep, 'R02.16', sub16, 'the value stored would be the raw bit pattern of the unconverted operand: ', keep=_fp_row)
+    if n16 == 0:
+        rep.undecided('R02.16', 'type.c:add_type:atomic-builtin-operands', 'lib_types.r_atomic_builtin_operands produced no obligation with a floating object or operand')
     rep.rule('R02.11', 'floating constant expressions: the folder evaluates floating operands, conditions and conversions as floating values in the operand\'s type (same obligations as C07)', floor=100)
     sub = Report('C07')
     c07.run(P, sub, tier)
